@@ -16,10 +16,12 @@ EXPLANATION = ("System.wrap is proved for all 8 periodicity settings on a system
                "min/max over atoms is executed): image flags are floor of the relative coordinate along periodic directions and zero otherwise, atoms move by exactly flags x old cell "
                "vectors (so flags reconstruct the originals), the new cell is the old one shifted/stretched along non-periodic directions only, and every atom's new relative "
                "coordinates lie in [0,1). The Cartesian->relative map enters through its C01 contract (stub returning the relative coordinates the positions were built from). "
-               "normalize goes through numpy.linalg.lstsq and the lengths/angles constructor (arccos/cos chain): it is checked by a labelled BOUNDED contract over a stated family "
-               "including left-handed and strongly tilted cells and systems with a populated reciprocal-vector cache.")
+               "normalize is proved modularly on a symbolic right- and left-handed cell with symbolic atoms: its callees enter by contract (lengths/angles constructor: LAMMPS-normal cell with "
+               "the same Gram matrix; Cartesian->relative: r - o = s V; lstsq on a square system: V X = V'; wrap: whole cell vectors) and the conclusions -- returned matrix orthogonal "
+               "with det +1, maps old cell onto new, atoms at T (r - origin) modulo the new lattice, input untouched -- follow by explicit certificates (ring identities). The "
+               "float behaviour (arccos/cos chain, lstsq) is additionally checked by a labelled BOUNDED contract over a stated family including left-handed and strongly tilted cells.")
 ASSUMPTIONS = ["Box.position_cartesian_to_relative is used through its C01 contract (inverse of relative_to_cartesian)", "wrap proved for natoms = 2 (symbolic), min/max over atoms executed by the facade's ite-min/max",
-               "normalize: bounded stand-in only (lstsq, arccos outside the verifier's reach)"]
+               "normalize proof: callee contracts as stated (C01 constructor and coordinate map, numpy.linalg.lstsq on an invertible square system); cell entries not below 1e-9 of the largest (setter clean-up is C01's subject); the run-time self-checks (allclose) of normalize answer True in the proof, what they check is proved exactly"]
 UNCOVERED = ["wrap for an empty system (min() of an empty array raises; outside the quantifier)", "normalize outside the enumerated family"]
 
 SYSF = 'atomman/core/System.py'
@@ -250,3 +252,299 @@ def wrap_family(tier, seed):
     fails = [] if not rep else [{'obligation': 'wrap.float', 'key': text[:80], 'input': 'see detail', 'detail': text}]
     files = {rel: hashlib.sha256(open(os.path.join(REPO, rel), 'rb').read()).hexdigest() for rel in (SYSF, BOXF)}
     return {'family': 'wrap float conformance', 'evaluations': 24, 'distinct_nontrivial': 24, 'rule': '3 cells x 8 pbc', 'samples': [{'cells': 3, 'pbc': 8}], 'failures': fails, 'files': files}
+
+
+# ----------------------------------------------------------------------------
+# normalize on a symbolic system with callee contracts (lengths/angles constructor -> C01; wrap -> the groups above)
+
+class _CloseTrue(object):
+    """the facade with the run-time self-checks of normalize (np.allclose / np.isclose inside assert) answering True: what they check is proved exactly below"""
+    def __getattr__(self, k):
+        return getattr(snp, k)
+
+    def allclose(self, *a, **k):
+        return True
+
+    def isclose(self, *a, **k):
+        return True
+
+
+def certify(E, name, conclusion, D, pairs):
+    """conclusion = 0 from hypotheses h_k = 0 (already assumed as callee contracts) by the certificate  conclusion * D == sum_k q_k * h_k  with D != 0:
+    (1) the certificate is a ring identity (no hypotheses used), (2) the closed implication over fresh variables"""
+    comb = 0
+    for q, h in pairs:
+        comb = comb + q * h
+    E.prove(name + '.certificate', conclusion * D == comb)
+    conc = {'c': conclusion, 'D': D}
+    for k, (q, h) in enumerate(pairs):
+        conc['q%d' % k] = q
+        conc['h%d' % k] = h
+    n = len(pairs)
+    g = E.abstract_lemma(name, conc,
+                         lambda v: [('certificate', v['c'] * v['D'] == sum((v['q%d' % k] * v['h%d' % k] for k in range(n)), 0)), ('D_nonzero', v['D'] != 0)]
+                         + [('hypothesis%d' % k, v['h%d' % k] == 0) for k in range(n)],
+                         lambda v: v['c'] == 0)
+    E.learn(g)
+
+
+def _replay_normalize(stem, vals):
+    from pyvc.native import atomman
+    import numpy as np
+    am = atomman()
+    msgs = []
+    try:
+        rng = np.random.RandomState(8)
+        for V in (np.array([[4.0, 0.3, -0.2], [1.2, 5.0, 0.4], [-0.7, 0.9, 6.0]]), np.array([[4.0, 0.3, -0.2], [1.2, 5.0, 0.4], [0.7, -0.9, -6.0]])):
+            o = np.array([0.7, -1.3, 2.1])
+            pos = rng.uniform(0.1, 0.9, (5, 3)).dot(V) + o
+            s = am.System(atoms=am.Atoms(pos=pos.copy(), atype=[1, 2, 1, 2, 1]), box=am.Box(vects=V, origin=o), pbc=(True, True, True))
+            out, T = am.lammps.normalize(s, return_transform=True)
+            left = np.linalg.det(V) < 0
+            V2 = V.copy()
+            o2 = o.copy()
+            if left:
+                V2[2] = -V2[2]
+                o2 = o + V[2]
+            if not (np.allclose(T.dot(T.T), np.eye(3), atol=1e-9) and np.isclose(np.linalg.det(T), 1.0, atol=1e-9)):
+                msgs.append('returned matrix is not a proper rotation (det %r)' % np.linalg.det(T))
+            if not np.allclose(V2.dot(T.T), out.box.vects, atol=1e-8):
+                msgs.append('T does not map the %s cell vectors onto the new ones' % ('reversed' if left else 'input'))
+            d = out.atoms.pos - (pos - o2).dot(T.T) - out.box.origin
+            fr = d.dot(np.linalg.inv(out.box.vects))
+            if np.abs(fr - np.round(fr)).max() > 1e-8:
+                msgs.append('%s-handed cell: atoms are not at T (r - origin) modulo the new cell vectors (max fractional residue %.3g)' % ('left' if left else 'right', np.abs(fr - np.round(fr)).max()))
+    except Exception as e:
+        msgs.append('raised %s: %s' % (type(e).__name__, e))
+    return (len(msgs) > 0, '; '.join(msgs[:3]) if msgs else 'float replay of the normalize contracts found no disagreement')
+
+
+def _normalize_group(handed):
+    @group('normalize.kernel[%s]' % handed, files=[NORMF, SYSF, BOXF], functions=['lammps.normalize', 'System.box_set'],
+           clause='normalize on a %s-handed symbolic cell with symbolic atoms; callees by contract (Box.set_abc: LAMMPS-normal cell with the Gram matrix of the lengths and angles it is '
+                  'given; Box.position_cartesian_to_relative: r - origin = s V; numpy.linalg.lstsq on square systems: V X = V\'; wrap: atoms move by whole cell vectors): the '
+                  'lengths and angles handed to the constructor are those of the input cell (third vector reversed and origin moved first if left-handed); the returned matrix T is '
+                  'orthogonal with det +1, maps the old cell vectors onto the new ones, every atom ends at T (r - origin) modulo whole new cell vectors with its type, periodicity '
+                  'and symbols kept, new origin zero; the input system is not modified. Conclusions are derived from the callee contracts by explicit certificates (ring identities)'
+                  % handed, replay=_replay_normalize, timeout_ms=60000)
+    def h_(E, L):
+        core = L.resolve('atomman.core')
+        System, Atoms, Box = core.System, core.Atoms, core.Box
+        nmod = L.load(NORMF)
+        V = E.reals('V', (3, 3))
+        o = E.reals('o', (3,))
+        d0 = det3(V)
+        E.assume(d0 > 0 if handed == 'right' else d0 < 0)
+        E.canary('normalize.canary[%s]' % handed, V[0, 0] == o[0])
+        pos = E.reals('r', (2, 3))
+        calls = []
+        hyps = {}
+
+        params = {}
+
+        class CBox(Box):
+            # lengths and angles of the current cell as opaque values (their definitions are C01's subject; here only WHICH value goes WHERE matters)
+            def _param(self, name):
+                key = (name, tuple(x.t.uid if isinstance(x, Sym) else ('c', float(x)) for x in self._Box__vects.ravel()))
+                if key not in params:
+                    params[key] = E.real('%s_of_cell%d' % (name, len(params)))
+                return params[key]
+            # the cell setter stores what it is given (its clean-up of entries below 1e-9 of the largest is C01's subject; precondition here: no such entries)
+            def _set_vects(self, value):
+                self._Box__vects[:] = snp.asarray(value)
+                self._Box__reciprocal_vects = None
+            vects = property(Box.vects.fget, _set_vects)
+            a = property(lambda self: self._param('a'))
+            b = property(lambda self: self._param('b'))
+            c = property(lambda self: self._param('c'))
+            alpha = property(lambda self: self._param('alpha'))
+            beta = property(lambda self: self._param('beta'))
+            gamma = property(lambda self: self._param('gamma'))
+
+            def set_abc(self, a, b, c, alpha=90.0, beta=90.0, gamma=90.0, origin=None):
+                cur = self._Box__vects.copy()
+                same = all(isinstance(x, Sym) and x.t is y.t for x, y in ((a, self.a), (b, self.b), (c, self.c), (alpha, self.alpha), (beta, self.beta), (gamma, self.gamma)))
+                Vp = snp.zeros((3, 3), dtype=object)
+                for (i, j) in ((0, 0), (1, 0), (1, 1), (2, 0), (2, 1), (2, 2)):
+                    Vp[i, j] = E.real('Vp%d%d' % (i, j))
+                gram = []
+                for i in range(3):
+                    E.assume(Vp[i, i] > 0)
+                    for j in range(i, 3):
+                        h = dot3(Vp[i], Vp[j]) - dot3(cur[i], cur[j])
+                        gram.append(((i, j), h))
+                        E.assume(h == 0)                     # same lengths and angles (C01 contract of the constructor)
+                hyps['gram'] = dict(gram)
+                calls.append(('set_abc', cur, Vp.copy(), same, origin))
+                self._Box__vects[:] = Vp
+                self._Box__origin[:] = 0.0 if origin is None else origin
+                self._Box__reciprocal_vects = None
+
+            def position_cartesian_to_relative(self, value):
+                value = snp.asarray(value)
+                S = E.reals('S%d' % len([c for c in calls if c[0] == 'c2r']), value.shape)
+                Vc, oc = self._Box__vects.copy(), self._Box__origin.copy()
+                hs = []
+                for k in range(value.shape[0]):
+                    for j in range(3):
+                        h = value[k, j] - oc[j] - (S[k, 0] * Vc[0, j] + S[k, 1] * Vc[1, j] + S[k, 2] * Vc[2, j])
+                        hs.append(((k, j), h))
+                        E.assume(h == 0)                     # C01 contract: r - origin = s V
+                calls.append(('c2r', Vc, oc, S, dict(hs), value.copy()))
+                return S.copy()
+
+        class WSystem(System):
+            def wrap(self, return_imageflags=False):
+                n_ = self.natoms
+                F = snp.zeros((n_, 3), dtype=object)
+                Vv = _np.asarray(self.box.vects, dtype=object)
+                before = self.atoms.view['pos'].copy()
+                new = snp.zeros((n_, 3), dtype=object)
+                for k in range(n_):
+                    for i in range(3):
+                        F[k, i] = E.int('F_%d_%d' % (k, i))
+                    for j in range(3):
+                        new[k, j] = before[k, j] - (F[k, 0] * Vv[0, j] + F[k, 1] * Vv[1, j] + F[k, 2] * Vv[2, j])
+                self.atoms.view['pos'][:] = new
+                calls.append(('wrap', tuple(bool(x) for x in self.pbc), F, before))
+
+        class _NP(_CloseTrue):
+            class _LA(object):
+                def __getattr__(self, k):
+                    return getattr(snp.linalg, k)
+
+                def lstsq(self, A_, B_, rcond=None):
+                    A_, B_ = snp.asarray(A_), snp.asarray(B_)
+                    X = E.reals('X', (3, 3))
+                    hs = {}
+                    for i in range(3):
+                        for j in range(3):
+                            h = sum(A_[i, k] * X[k, j] for k in range(3)) - B_[i, j]
+                            hs[(i, j)] = h
+                            E.assume(h == 0)                 # contract of lstsq for an invertible square matrix: A X = B
+                    calls.append(('lstsq', A_.copy(), B_.copy(), X, hs))
+                    return (X.copy(), None, 3, None)
+            linalg = _LA()
+        box = CBox()
+        box._Box__vects = V.copy()
+        box._Box__origin = o.copy()
+        box._Box__reciprocal_vects = None
+        E.side_enabled = False
+        system = WSystem(atoms=Atoms(pos=pos.copy(), atype=[2, 1]), box=box, pbc=(True, True, True), symbols=['Al', 'Cu'])
+        real_np = nmod.np
+        nmod.np = _NP()
+        try:
+            out, T = nmod.normalize(system, return_transform=True)
+        finally:
+            nmod.np = real_np
+        tag = 'normalize[%s]' % handed
+        E.prove(tag + '.new_object_input_untouched', out is not system and all(x.t is y.t for x, y in zip(system.box._Box__vects.ravel(), V.ravel()))
+                and all(x.t is y.t for x, y in zip(system.atoms.view['pos'].ravel(), pos.ravel())) and all(x.t is y.t for x, y in zip(system.box._Box__origin, o)))
+        sets = [c for c in calls if c[0] == 'set_abc']
+        wraps = [c for c in calls if c[0] == 'wrap']
+        c2r = [c for c in calls if c[0] == 'c2r']
+        lsq = [c for c in calls if c[0] == 'lstsq']
+        E.prove(tag + '.constructor_called_once_with_the_cell_own_parameters', len(sets) == 1 and sets[0][3] and sets[0][4] is None)
+        E.prove(tag + '.wrapped_once_fully_periodic', len(wraps) == 1 and wraps[0][1] == (True, True, True))
+        E.prove(tag + '.callee_usage', len(c2r) == 1 and len(lsq) == 1)
+        V2 = sets[0][1]                      # the cell whose lengths/angles were taken: the input, third vector reversed if left-handed
+        Vp = sets[0][2]
+        sgn = 1 if handed == 'right' else -1
+        for j in range(3):
+            E.prove(tag + '.parameters_of_input_cell[0,%d]' % j, V2[0, j] == V[0, j])
+            E.prove(tag + '.parameters_of_input_cell[1,%d]' % j, V2[1, j] == V[1, j])
+            E.prove(tag + '.parameters_of_input_cell[2,%d]' % j, V2[2, j] == sgn * V[2, j])
+        o2 = [o[j] + (V[2, j] if handed == 'left' else 0) for j in range(3)]
+        d2 = det3(V2)
+        g = E.abstract_lemma(tag + '.reference_cell_right_handed', dict(d2=d2, d0=d0), lambda c: [('determinant_relation', c['d2'] == sgn * c['d0']), ('handedness', (c['d0'] > 0) if sgn > 0 else (c['d0'] < 0))],
+                             lambda c: And(c['d2'] > 0, c['d2'] * c['d2'] != 0))
+        E.learn(g)
+        # relative coordinates were taken in the (reversed) input cell about its origin, before the cell was replaced
+        for j in range(3):
+            E.prove(tag + '.relative_coordinates_origin[%d]' % j, c2r[0][2][j] == o2[j])
+            for i in range(3):
+                E.prove(tag + '.relative_coordinates_cell[%d,%d]' % (i, j), c2r[0][1][i, j] == V2[i, j])
+            for k in range(2):
+                E.prove(tag + '.relative_coordinates_of_the_atoms[%d,%d]' % (k, j), c2r[0][5][k, j] == pos[k, j])
+        # lstsq was asked for V2 X = V'
+        for i in range(3):
+            for j in range(3):
+                E.prove(tag + '.lstsq_arguments[%d,%d]' % (i, j), And(lsq[0][1][i, j] == V2[i, j], lsq[0][2][i, j] == (Vp[i, j] if isinstance(Vp[i, j], Sym) else 0)))
+        X = lsq[0][3]
+        hX = lsq[0][4]
+        for i in range(3):
+            for j in range(3):
+                E.prove(tag + '.returned_matrix_is_transposed_solution[%d,%d]' % (i, j), T[i, j] == X[j, i])
+        # orthogonality:  d2^2 (X X^T - I) = adj [ (P - V') P^T + V' (P - V')^T + (G' - G) ] adj^T   with P = V2 X ; all bracketed differences are hypotheses
+        adj = [[cross3(V2[(j + 1) % 3], V2[(j + 2) % 3])[i] for j in range(3)] for i in range(3)]          # adj[i][j] = det * (V2^-1)[i][j]
+        P = [[sum(V2[a_, k] * X[k, b_] for k in range(3)) for b_ in range(3)] for a_ in range(3)]
+        gram = hyps['gram']
+        ortho = {}
+        for i in range(3):
+            for j in range(i, 3):
+                concl = sum(X[i, k] * X[j, k] for k in range(3)) - (1 if i == j else 0)
+                ortho[(i, j)] = concl
+                pairs = []
+                for a_ in range(3):
+                    for b_ in range(3):
+                        w = adj[i][a_] * adj[j][b_]
+                        for k in range(3):
+                            pairs.append((w * P[b_][k], hX[(a_, k)]))                                    # (P - V')_ak P_bk
+                            pairs.append((w * (Vp[a_, k] if isinstance(Vp[a_, k], Sym) else 0), hX[(b_, k)]))     # V'_ak (P - V')_bk
+                        gh = gram[(min(a_, b_), max(a_, b_))]
+                        pairs.append((w, gh))                                                              # (G' - G)_ab
+                certify(E, tag + '.orthogonal[%d,%d]' % (i, j), concl, d2 * d2, pairs)
+        # det X * det V2 = det V'  (from V2 X = V'):  det(V2 X) = det V2 det X is a ring identity; det(V2 X) - det V' is a combination of the hypotheses
+        E.prove(tag + '.det_product_rule', det3(_np.array(P, dtype=object)) == d2 * det3(X))
+        # the new system
+        nb = out.box
+        E.prove(tag + '.new_cell_is_the_constructor_result', all((nb._Box__vects[i, j].t is Vp[i, j].t) if isinstance(Vp[i, j], Sym) else float(nb._Box__vects[i, j]) == 0.0
+                                                                 for i in range(3) for j in range(3)))
+        E.prove(tag + '.new_origin_zero', all(float(x) == 0.0 for x in nb._Box__origin))
+        F = wraps[0][2]
+        S = c2r[0][3]
+        hS = c2r[0][4]
+        np_ = out.atoms.view['pos']
+        for k in range(2):
+            for j in range(3):
+                rot = sum(T[j, i] * (pos[k, i] - o2[i]) for i in range(3))
+                lat = F[k, 0] * Vp[0, j] + F[k, 1] * Vp[1, j] + F[k, 2] * Vp[2, j]
+                concl = np_[k, j] + lat - rot
+                # rot_j - (S V')_j = sum_i (r - o2 - S V2)_i X_ij + sum_a S_a (V2 X - V')_aj
+                pairs = [(-X[i, j], hS[(k, i)]) for i in range(3)] + [(-S[k, a_], hX[(a_, j)]) for a_ in range(3)]
+                certify(E, tag + '.atom_is_rotated_modulo_lattice[%d,%d]' % (k, j), concl, 1, pairs)
+        E.prove(tag + '.types_periodicity_symbols', [int(x) for x in out.atoms.view['atype']] == [2, 1] and tuple(bool(x) for x in out.pbc) == (True, True, True)
+                and tuple(out.symbols) == ('Al', 'Cu'))
+        # proper rotation: det X > 0 from det X det V2 = det V' (both positive) and det X^2 = 1 from orthogonality
+        XXt = [[sum(X[i, k] * X[j, k] for k in range(3)) for j in range(3)] for i in range(3)]
+        g = E.abstract_lemma(tag + '.new_volume_positive', dict(dp=det3(Vp), d=[Vp[0, 0], Vp[1, 1], Vp[2, 2]]),
+                             lambda c: [('triangular_determinant', c['dp'] == c['d'][0] * c['d'][1] * c['d'][2])] + [('diagonal_positive%d' % i, c['d'][i] > 0) for i in range(3)],
+                             lambda c: c['dp'] > 0)
+        E.learn(g)
+        Pl = [P[i][j] for i in range(3) for j in range(3)]
+        Vl = [Vp[i, j] if isinstance(Vp[i, j], Sym) else realconst(0) for i in range(3) for j in range(3)]
+        hl = [hX[(i, j)] for i in range(3) for j in range(3)]
+        ul = [ortho[(i, j)] for i in range(3) for j in range(i, 3)]
+
+        def sym3(u):
+            m_ = [[None] * 3 for _ in range(3)]
+            k = 0
+            for i in range(3):
+                for j in range(i, 3):
+                    m_[i][j] = m_[j][i] = u[k] + (1 if i == j else 0)
+                    k += 1
+            return _np.array(m_, dtype=object)
+
+        def mat(l):
+            return _np.array([[l[3 * i + j] for j in range(3)] for i in range(3)], dtype=object)
+        E.abstract_lemma(tag + '.proper_rotation', dict(dX=det3(X), d2=d2, dp=det3(Vp), P=Pl, Vp=Vl, h=hl, u=ul),
+                         lambda c: [('lstsq_contract', [x == 0 for x in c['h']]), ('lstsq_residual_definition', [c['h'][k] == c['P'][k] - c['Vp'][k] for k in range(9)]),
+                                    ('det_product_rule', det3(mat(c['P'])) == c['d2'] * c['dX']), ('new_volume_definition', c['dp'] == det3(mat(c['Vp']))),
+                                    ('old_volume_positive', c['d2'] > 0), ('new_volume_positive', c['dp'] > 0),
+                                    ('orthogonal', [x == 0 for x in c['u']]), ('det_of_gram', det3(sym3(c['u'])) == c['dX'] * c['dX'])],
+                         lambda c: c['dX'] == 1)
+    return h_
+
+
+for _h in ('right', 'left'):
+    _normalize_group(_h)
